@@ -350,7 +350,7 @@ func nativeReplay(vd, repo string, hs HarnessSpec, vecPath string) (string, stri
 	repl := map[string]string{}
 	for _, e := range ents {
 		n := e.Name()
-		if !strings.HasSuffix(n, ".go") || n == "zz_verif_rt.go" {
+		if !strings.HasSuffix(n, ".go") || n == "zz_verif_rt.go" || strings.HasPrefix(n, "zz_verif_gen_") {
 			continue
 		}
 		repl[filepath.Join(repo, hs.Pkg, n)] = filepath.Join(hdir, n)
@@ -379,9 +379,9 @@ func nativeReplay(vd, repo string, hs HarnessSpec, vecPath string) (string, stri
 		}
 	}
 	// generated overlay files of other packages (e.g. the dict package's embedded XML accessor)
-	filepath.Walk(filepath.Join(vd, "harness"), func(p string, info os.FileInfo, err error) error {
+	filepath.Walk(genDir, func(p string, info os.FileInfo, err error) error {
 		if err == nil && !info.IsDir() && strings.HasPrefix(filepath.Base(p), "zz_verif_gen_") {
-			rel, _ := filepath.Rel(filepath.Join(vd, "harness"), p)
+			rel, _ := filepath.Rel(genDir, p)
 			repl[filepath.Join(repo, rel)] = p
 		}
 		return nil
